@@ -697,3 +697,13 @@ pub fn run_calculator(line: &str) -> Result<String, &str> {
         }
     }
 }
+
+#[cfg(cicada_verif)]
+pub mod verif_export {
+    //! wrappers over private functions of this module, for the verification harness
+    use super::{CommandLine, CommandResult, Shell};
+
+    pub fn try_run_builtin(sh: &mut Shell, cl: &CommandLine, idx_cmd: usize, capture: bool) -> Option<CommandResult> {
+        super::try_run_builtin(sh, cl, idx_cmd, capture)
+    }
+}
